@@ -20,10 +20,12 @@ class Chain:
         self.result_nodes = {id(s.node) for s in self.A.sites if s.node is not None}
         self.paths = effect_paths(fn["body"], self.is_effect)
 
+    READ_ONLY = ("len", "capacity", "is_empty", "is_full", "as_slice", "as_ref", "iter", "first", "last", "get", "starts_with", "ends_with")
+
     def touches_buf(self, n):
-        """n passes the buffer (by &mut or as receiver)"""
+        """n passes the buffer (by &mut or as receiver); read-only queries are not effects"""
         if n.get("k") == "mcall" and H.local_id(n["recv"]) == self.buf_id:
-            return True
+            return n.get("method") not in self.READ_ONLY
         if n.get("k") in ("call", "mcall"):
             for a in H.call_args(n):
                 if H.local_id(a) == self.buf_id:
